@@ -154,6 +154,23 @@ impl<'s> SerializerConfig<'s> {
 		self
 	}
 
+	#[cfg(ten0_serde_avro_fast_verif)]
+	/// Verification hook: lengths of the pooled field-reordering buffers, and of the pooled buffers of buffers
+	pub fn verif_pool_lens(&self) -> (Vec<usize>, Vec<usize>) {
+		(
+			self.buffers
+				.field_reordering_buffers
+				.iter()
+				.map(|b| b.len())
+				.collect(),
+			self.buffers
+				.field_reordering_super_buffers
+				.iter()
+				.map(|b| b.len())
+				.collect(),
+		)
+	}
+
 	/// Get the schema that was used when creating this `SerializerConfig`.
 	///
 	/// That is the one that will be used when building a serializer from this
